@@ -9,12 +9,14 @@ import (
 
 	sdkmath "cosmossdk.io/math"
 	storetypes "cosmossdk.io/store/types"
+	"github.com/cosmos/cosmos-sdk/codec"
 	"github.com/cosmos/cosmos-sdk/codec/address"
 	codectypes "github.com/cosmos/cosmos-sdk/codec/types"
 	"github.com/cosmos/cosmos-sdk/runtime"
 	sdk "github.com/cosmos/cosmos-sdk/types"
 	authtypes "github.com/cosmos/cosmos-sdk/x/auth/types"
 	stakingtypes "github.com/cosmos/cosmos-sdk/x/staking/types"
+	gethcommon "github.com/ethereum/go-ethereum/common"
 	consensuskeeper "github.com/palomachain/paloma/v2/x/consensus/keeper"
 	consensustypes "github.com/palomachain/paloma/v2/x/consensus/types"
 	evmkeeper "github.com/palomachain/paloma/v2/x/evm/keeper"
@@ -54,6 +56,7 @@ func (fakeSkyway) CastChainERC20ToDenoms(ctx context.Context, chainReferenceID s
 }
 
 type Env struct {
+	Cdc       codec.Codec
 	Ctx       sdk.Context
 	MS        *models.MultiStore
 	Staking   *models.Staking
@@ -100,7 +103,7 @@ func New(height int64) *Env {
 	evm.Skyway = fakeSkyway{}
 	cons.LateInject(evm)
 	reg.Add(evm)
-	return &Env{Ctx: ctx, MS: ms, Staking: st, Slashing: sl, Bank: bank, Accounts: accs, Valset: valset, Metrix: &metrix, Treasury: treasury, Consensus: cons, Evm: evm}
+	return &Env{Cdc: cdc, Ctx: ctx, MS: ms, Staking: st, Slashing: sl, Bank: bank, Accounts: accs, Valset: valset, Metrix: &metrix, Treasury: treasury, Consensus: cons, Evm: evm}
 }
 
 // AddChain registers and activates an EVM chain (the governance path).
@@ -119,10 +122,27 @@ func (e *Env) AddValidator(i int, tokens int64, chains ...string) {
 	e.Staking.Add(Vals[i], stakingtypes.Bonded, false, sdkmath.NewInt(tokens), tokens/1_000_000)
 	var infos []*valsettypes.ExternalChainInfo
 	for _, c := range chains {
-		infos = append(infos, &valsettypes.ExternalChainInfo{ChainType: "evm", ChainReferenceID: c, Address: models.EthAddrs[i], Pubkey: []byte(models.EthAddrs[i])})
+		infos = append(infos, &valsettypes.ExternalChainInfo{ChainType: "evm", ChainReferenceID: c, Address: models.EthAddrs[i], Pubkey: gethcommon.HexToAddress(models.EthAddrs[i]).Bytes()})
 	}
 	if len(infos) > 0 {
 		if err := e.Valset.AddExternalChainInfo(e.Ctx, Vals[i], infos); err != nil {
+			panic(err)
+		}
+	}
+}
+
+// SetupFees configures treasury so that fees can be attached to estimated messages.
+func (e *Env) SetupFees(mult sdkmath.LegacyDec, validators ...int) {
+	if err := e.Treasury.SetCommunityFundFee(e.Ctx, "0.01"); err != nil {
+		panic(err)
+	}
+	if err := e.Treasury.SetSecurityFee(e.Ctx, "0.01"); err != nil {
+		panic(err)
+	}
+	for _, i := range validators {
+		rfs := &treasurytypes.RelayerFeeSetting{ValAddress: Vals[i].String(), Fees: []treasurytypes.RelayerFeeSetting_FeeSetting{
+			{ChainReferenceId: ChainA, Multiplicator: mult}, {ChainReferenceId: ChainB, Multiplicator: mult}}}
+		if err := e.Treasury.SetRelayerFee(e.Ctx, Vals[i], rfs); err != nil {
 			panic(err)
 		}
 	}
